@@ -361,6 +361,7 @@ class Sim:
         self.in_seam = 0
         self.started = False
         self._next_wake = float("inf")
+        self.lazy_kinds: set[str] = set()  # thread kinds that run "arbitrarily late"
 
     # ------------------------------------------------------------------ actors
     def actor(self, name: str) -> Actor:
@@ -404,6 +405,12 @@ class Sim:
             self.yield_point("clock", None)
         self.now += 1e-6
         return self.now
+
+    def spin_point(self) -> None:
+        """A busy-wait iteration: yield and let `delta_spin` pass."""
+        if self.threaded and self.current_thread() is not None and not self.in_seam:
+            self.now += self.delta_spin
+            self.yield_point("clock", None)
 
     def bump(self, n: str, k: int = 1) -> None:
         self.stats[n] = self.stats.get(n, 0) + k
@@ -563,20 +570,34 @@ class Sim:
         return [t for t in self.threads if t.state == RUNNABLE]
 
     def _choose(self, cur: SimThread, kind: str, detail: Any) -> SimThread:
-        """Policy decision; cur may be non-runnable (it is blocking)."""
-        runnable = self._runnable()
-        if not runnable:
+        """Policy decision; cur may be non-runnable (it is blocking).
+
+        `default` is what a replay does when no deviation is recorded for this
+        point (continue, else the lowest-numbered runnable thread); whatever a
+        policy picks instead is recorded as a deviation, so any run can be
+        replayed -- and shrunk -- as default + deviations."""
+        everyone = self._runnable()
+        if not everyone:
             return cur
-        default = cur if cur.state == RUNNABLE else runnable[0]
-        if len(runnable) == 1 and default is runnable[0]:
+        default = cur if cur.state == RUNNABLE else everyone[0]
+        if len(everyone) == 1 and default is everyone[0]:
             return default
-        chosen = default
+        runnable = everyone
         p = self.policy
+        if self.lazy_kinds and p != "scripted":
+            eager = [t for t in everyone if t.kind not in self.lazy_kinds]
+            if eager and len(eager) < len(everyone) and self.rng_sched.random() < 0.97:
+                if cur.state == RUNNABLE and cur.kind in self.lazy_kinds:
+                    eager = eager + [cur]
+                runnable = eager
+        pref = cur if (cur.state == RUNNABLE and cur in runnable) else runnable[0]
+        chosen = pref
         if p == "scripted":
             assert self.scripted is not None
+            chosen = default
             tgt = self.scripted.get((cur.name, cur.nyield))
             if tgt is not None:
-                for t in runnable:
+                for t in everyone:
                     if t.name == tgt:
                         chosen = t
                         break
@@ -595,7 +616,7 @@ class Sim:
                 cur.priority -= 0.01
             chosen = max(runnable, key=lambda t: (t.priority, -t.number))
         elif p == "seq":
-            chosen = default
+            chosen = pref
         else:
             raise HarnessError(f"unknown policy {p}")
         if chosen is not default:
@@ -693,6 +714,7 @@ class Sim:
 
     def _thread_finished(self, th: SimThread) -> None:
         th.state = DONE
+        th.nyield += 1  # the hand-over at thread end is a decision point of its own
         self.log_event("thread-end", th.name)
         for t in self.threads:
             if t.state == BLOCKED and t.blocked_on is not None and t.blocked_on[0] == "join" and t.blocked_on[1] is th:
